@@ -110,8 +110,10 @@ def wf_sx(d):
 def mk_rep(rep, vol):
     q = Q()
     if vol:
+        # the VALUE of a volatile count may be any number (`__int__` rounds and clamps); dyadic fractions stay exact
+        val = int(rep) if F(rep).denominator == 1 else float(F(rep))
         return q.VolatileRepetitionCount(q.ExpressionScalar('v'),
-                                         q.DictScope(q.FrozenDict({'v': int(rep)}), volatile={'v'}))
+                                         q.DictScope(q.FrozenDict({'v': val}), volatile={'v'}))
     return int(rep)
 
 
@@ -405,7 +407,11 @@ def exec_op(world: World, op):
         else:
             thunk = lambda: node.append_child(a)
     elif name == 'setitem':
-        a = _arg(world, op[3], node)
+        if op[3] == ['same']:
+            # the child that already sits at this index (`node[i] = node[i]`)
+            a = node[op[2]] if -len(node) <= op[2] < len(node) else None
+        else:
+            a = _arg(world, op[3], node)
         if a is None:
             return None
         lean = ['setitem', pl, op[2], world.dump(a)]
@@ -452,6 +458,8 @@ def exec_op(world: World, op):
                 node.repetition_count = r
             elif how == 'def':
                 node.repetition_definition = r
+            elif how == 'volfrac':
+                node.repetition_definition = mk_rep(r, True)
             else:
                 node.repetition_definition = mk_rep(max(r, 0), True)
     elif name == 'unroll':
@@ -681,7 +689,11 @@ def rand_op(rng, world: World, max_nodes=70):
             if n == 0 and not bad:
                 continue
             idx = rng.randrange(-n, n) if n and not bad else rng.choice([n, -n - 1, n + 3])
-            op = ['setitem', path, idx, rand_arg(rng, world)]
+            if n and not bad and rng.random() < 0.3:
+                # store the child at the position it already occupies (`node[i] = node[i]`, positive or negative i)
+                op = ['setitem', path, idx, ['same']]
+            else:
+                op = ['setitem', path, idx, rand_arg(rng, world)]
         elif name == 'setslice':
             k = rng.random()
             if k < 0.45 or size > max_nodes:
@@ -783,6 +795,7 @@ ALPHABET_EXTRA = [
     ['addmeas', [], [[1, F(1, 2), F(1)]], 'iter'], ['addmeas', [0, 0], [], 'iter'], ['dropmeas', [0]],
     ['addmeas', [1], [], 'list'], ['dropmeas', []],
     ['copy', [0], False], ['copy', [0], 'empty'], ['copy', [0, 0], 'nonempty'],
+    ['setitem', [], 0, ['same']], ['setitem', [], -1, ['same']], ['setitem', [0], 0, ['same']],
     ['setslice', [], 1, 1, None, [_LEAF], [[0, []]]], ['setslice', [0], None, None, None, [], [[0, []], [0, [0]]]],
 ]
 
@@ -1268,6 +1281,137 @@ def _check_created_programs(ctx):
                           {'kind': 'created-program', 'template': name})
 
 
+# ---------------------------------------------------------------------------------------------
+# volatile counts whose value is not a natural number: judged on the implementation only
+# ---------------------------------------------------------------------------------------------
+
+FRAC_VALUES = [F(5, 2), F(3, 2), F(7, 4), F(1, 2), F(9, 4), F(5, 4), F(-3, 2), F(3), F(0)]
+
+
+def frac_spec(rng, depth=0):
+    """chains of single-child loops (what `_merge_single_child` / `cleanup` work on) whose counts mix plain
+    integers (also negative), and volatile counts with non-integer values"""
+    k = rng.random()
+    if k < 0.45:
+        spec = {'rep': rng.choice(FRAC_VALUES), 'vol': True}
+    else:
+        spec = {'rep': rng.choice([1, 2, 3, 3, 4, -1, -2, 0]), 'vol': False}
+    spec.update({'wf': None, 'meas': [], 'kids': []})
+    if depth >= 4 or (depth >= 1 and rng.random() < 0.25):
+        spec['wf'] = rand_wf(rng)
+        return spec
+    n = 1 if rng.random() < 0.7 else 2
+    spec['kids'] = [frac_spec(rng, depth + 1) for _ in range(n)]
+    return spec
+
+
+def frac_op(rng, world: World):
+    nodes = list(world.nodes())
+    for _ in range(40):
+        path, node = rng.choice(nodes)
+        path = list(path)
+        k = rng.random()
+        if k < 0.3:
+            op = ['query', path[:rng.randrange(0, len(path) + 1)]]
+        elif k < 0.5:
+            if len(node) != 1:
+                continue
+            op = ['merge', path]
+        elif k < 0.65:
+            op = ['cleanup', path, rng.random() < 0.5, True]
+        elif k < 0.75:
+            op = ['setrep', path, rng.choice(FRAC_VALUES), 'volfrac']
+        elif k < 0.82:
+            op = ['setrep', path, rng.choice([-2, -1, 0, 2, 3]), 'count']
+        elif k < 0.88:
+            op = ['encapsulate', path]
+        elif k < 0.93:
+            if not any(c.repetition_count > 1 for c in node):
+                continue
+            op = ['split', path, None]
+        else:
+            if len(node) == 0 or node.repetition_count > 4:
+                continue
+            op = ['unrollchildren', path]
+        if op[0] in ('merge', 'cleanup') and any(n._waveform is not None and len(n) > 0 for _p, n in world.nodes(node)):
+            continue
+        return op
+    return ['query', []]
+
+
+def run_judged_history(init_spec, ops=None, rng=None, length=0):
+    """a history that is judged on the implementation only (no model run): dumps for the Lean judge and the
+    direct predicates after every step"""
+    world = World(init_spec)
+    rec = {'init': init_spec, 'ops': [], 'lines': [sx(['c09', 'judge', world.dump(world.root)])],
+           'direct': [direct_predicates(world)], 'errs': [None]}
+    for item in (ops if ops is not None else range(length)):
+        op = item if ops is not None else frac_op(rng, world)
+        r = exec_op(world, op)
+        if r is None:
+            continue
+        rec['ops'].append(op)
+        rec['errs'].append(r[1])
+        rec['lines'].append(sx(['c09', 'judge', world.dump(world.root)]))
+        rec['direct'].append(direct_predicates(world))
+    return rec
+
+
+def judged_verdict(rec, answers):
+    """index of the first operation after which the implementation violates the property, and why"""
+    for k, (ans, direct) in enumerate(zip(answers, rec['direct'])):
+        if ans != ['ok'] or direct:
+            op = rec['ops'][k - 1] if k else ['initial tree', []]
+            return k - 1, 'after %s %s: %s %s' % (op[0], op[1], direct or '', '' if ans == ['ok'] else sx(ans))
+    return None
+
+
+def _judged_violates(init_spec, ops):
+    rec = run_judged_history(init_spec, ops=ops)
+    return judged_verdict(rec, core.Lean.run(rec['lines'])) is not None
+
+
+def _check_fractional_volatile(ctx, n):
+    """Volatile counts evaluate an expression: `int()` rounds and clamps once, so a merged count is NOT the product of
+    the two evaluated counts when a value is not a natural number (2.5 under 3: 2*3 = 6 before, round(7.5) = 8 after).
+    The tree model multiplies integers, so these histories are judged on the implementation alone: after every step
+    every node's reported duration equals the recomputation from leaves and (evaluated) counts, positions and
+    parents are right, and Lean's `coherentB` accepts the dumped state."""
+    rng = ctx.fork('fractional-volatile')
+    recs = []
+    for _ in range(n):
+        recs.append(run_judged_history(frac_spec(rng), rng=rng, length=rng.randrange(4, 10)))
+    flat = [l for r in recs for l in r['lines']]
+    answers = core.Lean.run(flat)
+    pos = 0
+    reported = 0
+    for rec in recs:
+        ans = answers[pos:pos + len(rec['lines'])]
+        pos += len(rec['lines'])
+        ctx.case('fractional-volatile:' + rec['lines'][0][:200] + sx(_json_safe(rec['ops']))[:200])
+        ctx.evaluations += len(rec['ops'])
+        ctx.count('fractional-volatile:histories')
+        ctx.count('fractional-volatile:steps', len(rec['ops']))
+        for e in rec['errs']:
+            if e:
+                ctx.count('fractional-volatile:error:' + e)
+        v = judged_verdict(rec, ans)
+        if v and reported < 3:
+            reported += 1
+            k, what = v
+            init, ops = shrink(rec['init'], rec['ops'][:k + 1], _judged_violates)
+            r2 = run_judged_history(init, ops=ops)
+            v2 = judged_verdict(r2, core.Lean.run(r2['lines']))
+            ctx.violation((v2 or v)[1] + ' (volatile counts with non-integer values; judged on the implementation)',
+                          {'kind': 'judged-history', 'init': _json_ops(init), 'ops': _json_ops(ops)})
+        elif v:
+            ctx.violations.append({'what': v[1], 'replay': None, 'found_input': True})
+
+
+def _json_safe(ops):
+    return [[str(x) if isinstance(x, F) else x for x in op] for op in ops]
+
+
 def _known_findings(ctx):
     listed = {kf.get('finding') for kf in ctx.findings.for_property(PID)}
     rep, want = pf_c09_2_witness()
@@ -1343,6 +1487,7 @@ def run(ctx: core.Ctx):
     _check_eq(ctx, ctx.n(600, 10000))
     _check_beside(ctx, ctx.n(300, 6000))
     _check_created_programs(ctx)
+    _check_fractional_volatile(ctx, ctx.n(400, 8000))
     tot = ctx.counters.get('steps-identical-to-model', 0) + ctx.counters.get(
         'steps-soft-difference(uid/cache-presence/stale fields of detached nodes)', 0)
     ctx.extra['structural_agreement'] = '%d of %d compared steps identical in every field (uids, caches, positions, parents)' % (
@@ -1366,6 +1511,12 @@ def replay(ctx: core.Ctx, rec: dict, from_corpus: bool = False) -> bool:
         _known_findings(ctx)
     elif kind == 'created-program':
         _check_created_programs(ctx)
+    elif kind == 'judged-history':
+        r = run_judged_history(_unjson(rec['init']), ops=_unjson(rec['ops']))
+        v = judged_verdict(r, core.Lean.run(r['lines']))
+        ctx.case('replay:' + r['lines'][0][:300])
+        if v:
+            ctx.violation(v[1], {'kind': 'judged-history', 'init': rec['init'], 'ops': rec['ops']})
     elif kind == 'beside':
         # the two-tree stream is deterministic given the seed: re-run it at the recorded seed / tier
         sub = core.Ctx(ctx.pid, rec.get('tier', 'quick'), rec.get('seed', 0))
